@@ -28,6 +28,23 @@ def main():
         seed = int(a.seed)
     except ValueError:
         seed = 0
+    # watchdog: a run that does not finish is a failure of the machinery (exit 2), never a verdict
+    import signal
+    limit = int(os.environ.get("VERIF_CHECK_TIMEOUT", "2400" if a.tier == "quick" else "28000"))
+
+    def on_alarm(signum, frame):
+        print("INFRA-ERROR: %s %s did not finish within %d s (last stack: %s)" % (
+            prop, a.tier, limit, " <- ".join("%s:%d" % (f.f_code.co_name, f.f_lineno) for f in _frames(frame))), file=sys.stderr)
+        os._exit(2)
+
+    def _frames(f, n=6):
+        out = []
+        while f is not None and len(out) < n:
+            out.append(f)
+            f = f.f_back
+        return out
+    signal.signal(signal.SIGALRM, on_alarm)
+    signal.alarm(limit)
     try:
         mod = importlib.import_module("props." + prop.lower())
         core.ensure_built()
